@@ -125,6 +125,13 @@ def gen(rng, nrng, tier):
                 for m in ms[: (2 if tier == "quick" else 5)]:
                     yield ("shift", {"cls": cls, "x": x, "nfft": nfft, "m": m})
                 yield ("real", {"cls": cls, "x": xr, "nfft": nfft})
+    # long complex records (N >= 256) through the correlation-based classes
+    NL = 300
+    nl = np.arange(NL)
+    xl = nrng.standard_normal(NL) + 1j * nrng.standard_normal(NL) + 2 * np.exp(2j * np.pi * 0.11 * nl)
+    for cls in (("pyule", "pma", "parma", "pcorrelogram") if tier == "quick" else C.CLASSES):
+        for nfft in ((512,) if tier == "quick" else (512, 301)):
+            yield ("shift", {"cls": cls, "x": xl, "nfft": nfft, "m": 5})
     # all residues for a small NFFT (periodogram and Burg)
     xs = nrng.standard_normal(10) + 1j * nrng.standard_normal(10)
     for nfft in (12, 13):
